@@ -59,6 +59,7 @@ def optKind (j : Json) (k : String) : Option ExcKind :=
 
 def stageOfName (s : String) : Stage :=
   match s with
+  | "refuse" => .refuse
   | "createInDoc" => .createInDoc
   | "decompose" => .decompose
   | "genContexts" => .genContexts
@@ -92,7 +93,8 @@ def opsS (j : Json) (k : String) : List (Op String) :=
       let kind := (a[0]?.bind (·.getStr?.toOption)).getD ""
       let name := (a[1]?.bind (·.getStr?.toOption)).getD ""
       let h := (a[2]?.bind (·.getNat?.toOption)).getD 0
-      if kind == "del" then .del name h else if kind == "clear" then .clear name else .add name h
+      if kind == "del" then .del name h else if kind == "clear" then .clear name
+      else if kind == "fire" then .fire name else .add name h
     | _ => .clear ""
 
 /-- which removals of the history raise KeyError (handler not registered at that moment) -/
@@ -114,6 +116,10 @@ def mgrE (j : Json) : Mgr Event :=
 
 def getObj (j : Json) (k : String) : Json := (j.getObjVal? k).toOption.getD Json.null
 
+def spellingOfName (s : String) : Spelling :=
+  match s with
+  | "_evmgr" => .evmgr | "_event_manager" => .eventManager | "_event_managers" => .eventManagers | _ => .evmgrs
+
 def worldOf (j : Json) : World :=
   let rs : List (H × Event × ExcKind) := (getArr j "raises").toList.map fun p =>
     match p with
@@ -122,7 +128,7 @@ def worldOf (j : Json) : World :=
                  kindOfName ((a[2]?.bind (·.getStr?.toOption)).getD ""))
     | _ => (0, .other, .fault)
   { app := mgrE (getObj j "app")
-    meths := (getArr j "meths").toList.map mgrE
+    meths := descriptorManagers F (spellingOfName (getStr j "spelling")) ((getArr j "meths").toList.map mgrE)
     svc := mgrE (getObj j "svc")
     inProt := mgrE (getObj j "inprot")
     outProt := mgrE (getObj j "outprot")
@@ -154,7 +160,9 @@ def step (j : Json) : Json :=
     let spec := getObj j "mgr"
     let m0 := (Mgr.inherit ((getArr spec "bases").toList.map mgrS)).addAll (regsS spec "regs")
     Json.mkObj [("ok", Json.arr (qs.map fun q => Json.arr ((m.fire q).map fun (h : Nat) => Json.num (JsonNumber.fromNat h)).toArray).toArray),
-                ("keyerr", Json.arr ((keyErrors m0 (opsS spec "ops")).map Json.bool).toArray)]
+                ("keyerr", Json.arr ((keyErrors m0 (opsS spec "ops")).map Json.bool).toArray),
+                ("fires", Json.arr ((m0.runHistory (opsS spec "ops")).map fun l =>
+                    Json.arr (l.map fun (h : Nat) => Json.num (JsonNumber.fromNat h)).toArray).toArray)]
   | "trace" =>
     let c : Cfg := ⟨outpOfName (getStr j "outp"), if getStr j "transport" == "wsgi" then .wsgi else .serverBase,
                     shapeOfName (getStr j "shape")⟩
